@@ -227,6 +227,10 @@ func genC07(t *rapid.T) Case {
 				k = "del"
 			}
 			op := COp{K: k, Slot: s, Key: rapid.IntRange(0, nk-1).Draw(t, "key"), Len: rapid.IntRange(0, 9).Draw(t, "len")}
+			if k == "set" && rapid.IntRange(0, 4).Draw(t, "viaCreate") == 0 {
+				// the same write through the file-handle API of the transaction (heavy backend only)
+				op = COp{K: "create", Slot: s, Key: op.Key, Sizes: []int{8 + op.Len}}
+			}
 			if late[s] || rapid.IntRange(0, 3).Draw(t, "lateWrite") == 0 {
 				c.Clients[s-1] = append(c.Clients[s-1], op)
 			} else {
